@@ -20,7 +20,7 @@ TECH = {
     "C09": "MIR dominance + who-may-call on the out-of-range path; exhaustive enumeration of the orderings of (node start, node end, start bound, end bound) against the path table of the range test; abstract block-indent levels composed over the range-only visitor's call graph (R-INDENT); table-field walkers of the range-only visitor honour ignore directives; R-ONCE (formatted nodes carry no positions); out-of-range statements handed to the dispatching formatter (R-SKIP(h) path table); R-RANGE(toggle)",
     "C10": "MIR who-may-construct whitespace tokens, per-path constant audit of newline/indent literals, postcondition of the EOF whitespace trimmer on every return path, sanitiser-caller table; summary-based taint analysis of raw input trivia to the trivia sinks (R-RAW) with the sanitiser's postcondition; frozen comment guards (R-GUARD); builder chains over cloned input nodes replace every field (R-BUILDER, ADT field lists); R-PRINT; toggle pairing on the last statement (R-SKIP(d)); closures of formatters never return bare clones of input nodes (R-RAWNODE(closure)); CFG path exclusion of padding application and multi-line layout in format_index (R-PADLINE, backward dataflow through the vec! expansion and own closures)",
     "C11": "MIR decision-table extraction of option functions vs documented meaning, must-call siblings; quoted-string path clause; look-ahead table of the call formatter; both directions of the call-parentheses decision (three-valued documented conditions); measurement copies never returned (R-OPT(measure)); R-RAWNODE(closure)",
-    "C12": "MIR who-may-call sort, stable-sort callee, gating as a path property, first-iteration decision table of the grouping (previous part x kind x line distance), ignore pairing; (statement, semicolon) pairs moved whole; membership evidence (exactly one name / expression) on every group-member path; frozen table of feature-gated arms of the sorter's predicates (R-ARMS); toggle walk dominates every emit and forms one state (R-SORT(toggle)); the sort pass rewrites leading trivia only; every statement lands in a partition (R-GROUP(total))",
+    "C12": "MIR who-may-call sort, stable-sort callee, gating as a path property, first-iteration decision table of the grouping (previous part x kind x line distance), ignore pairing; (statement, semicolon) pairs moved whole; membership evidence (exactly one name / expression) on every group-member path; frozen table of feature-gated arms of the sorter's predicates (R-ARMS); toggle walk dominates every emit and forms one state (R-SORT(toggle)); the sort pass rewrites leading trivia only; every statement lands in a partition (R-GROUP(total)); adjacency measured on the (statement, semicolon) pair (R-GROUP(pairend), Self type of the resolved Node::end_position call)",
     "C13": "MIR who-may-write file system / exit status, dominance by !opt.check, atomic-monotone status writes; verification flag wiring; exact no-difference tests of the diff producers (R-DIFFNONE); path table of check-mode verdicts (Complete only on create_diff's None; R-CHECKVERDICT); diff arguments as read (R-DIFFARGS); every Err edge of the output thread raises the status (R-ERRSTATUS); exit status raised by direct stores only, also for the walker (R-ERRSTATUS after F24); R-EXACTREAD",
     "C14": "MIR dominance: write only after Ok and difference; one send per worker; output loop has no early exit; verification flag wiring; build-manifest rule (no panic = abort profile); format only on the parser's Ok edge (R-PARSE); job only inside the pool (R-WORKERS(pool)); no lossy decoding of the input (R-EXACTREAD); panic_count of the pool that runs the jobs; R-ERRSTATUS direct stores; verification level chosen by opt.verify alone (named violation); verification copy taken from the parameter (R-VERIFYINPUT)",
     "C15": "MIR provenance of the returned Config (CLI overrides applied last), path table of the upward search stop test, fallback-location rule, constant audit of config file names; search start directory and search root provenance; stdin file path always seeds the search (R-CFG(k) path table); flag-skipped path clause of load_overrides",
